@@ -107,12 +107,18 @@ func genC09(t *rapid.T) c09Case {
 			c.Pre = append(c.Pre, core.RefEncode(tv.S, v2))
 		}
 	}
-	if rapid.IntRange(0, 3).Draw(t, "preother") == 0 {
+	if rapid.IntRange(0, 2).Draw(t, "preother") == 0 && len(tv.S.Fields) > 0 {
 		// another type with the same ids, all present
 		o := &core.StructSpec{}
 		ov := &core.SVal{F: map[uint16]core.Val{}}
 		for _, f := range tv.S.Fields {
-			o.Fields = append(o.Fields, &core.FieldSpec{Name: "O" + f.Name, ID: f.ID, Req: core.Required, Type: &core.TypeSpec{Kind: core.KI64}})
+			// the same ids, present on the wire; required in one variant, optional in the other (bits of
+			// non-required fields are set in the pooled presence set as well)
+			rq := core.Required
+			if tv.S.Fields[0].ID%2 == 1 || f.ID >= 64 {
+				rq = core.Optional
+			}
+			o.Fields = append(o.Fields, &core.FieldSpec{Name: "O" + f.Name, ID: f.ID, Req: rq, Type: &core.TypeSpec{Kind: core.KI64}})
 			ov.F[f.ID] = core.Val{I: 1}
 		}
 		c.PreOther = &decCase{S: o, Msg: core.RefEncode(o, ov)}
